@@ -32,17 +32,15 @@ PROPS_PART = {
                    + QUERY_TRUST,
         verus=[dict(unit=u, which='all') for u in QUERY_UNITS] + [
                # the zone lookups the answers are computed from (property C06's unit; C05 quantifies over any catalog)
-               dict(unit='zone', which='all', fns=['lookup', 'lookup_addrs', 'lookup_all', 'lookup_base', 'lookup_impl'])],
+               dict(unit='zone', which='all', fns=['lookup', 'lookup_addrs', 'lookup_all', 'lookup_base', 'lookup_impl']),
+               dict(unit='server_query_dispatch', which='all', fns=['handle_query', 'handle_non_axfr_query'])],
         native=[dict(bin='bnd_zone', when='quick', bound='see C06: all 2^15 subsets of a 15-record universe x 29 query names x 8 types x options', what='the zone lookups that answers are computed from, against an independent RFC 1034/4592 reference (stand-in shared with C06)'),
                 dict(bin='bnd_server_answers', when='quick',
                      bound='64 variants (6 toggles) of a ~75-record zone ap.ex. (alone in a SingleZoneCatalog / with a child zone two labels below an entry-less node, a child zone at the delegation and a class-CH zone in a HashMapTreeCatalog) and a zone bg. with RRsets/referrals overflowing 512/1232 octets (queries to bg. also TSIG-signed) x every owner name, a child of each, 30-38 extra names (mixed case, outside) x 10 QTYPEs (A NS CNAME SOA MX TXT AAAA SRV ANY TYPE257) x QCLASS IN (+CH) x EDNS none/1232/4096/600 x TCP + UDP with response buffers of 1232/65535/70000 octets',
                      what="RCODE, AA and answer/authority/additional sections (multisets of owner-lowercased RRs, RDATA decompressed) of the real server's TCP responses against a reference resolver over a flat record list (RFC 1034 4.3.2, RFC 4592 incl. empty-non-terminal wildcards, RFC 6604, <= 8 CNAME links / loops -> SERVFAIL, referral glue, NS/MX/SRV target addresses incl. AAAA-only targets, negative TTL = min(SOA TTL, MINIMUM)); optional points (additionals for ANY, below cuts, wildcard-synthesized) accepted both ways")],
         kani=[],
         cex={},
-        unverified=['handle_query / handle_non_axfr_query (server units); `at_or_below(labels(qname), zone apex)` - the zone was found by a catalog '
-                    'lookup for the QNAME - is a PRECONDITION of answer / answer_any that the server units do not discharge yet (needs Catalog::lookup '
-                    'longest-suffix + view_keys_ok + Entry::name + Zone::lemma_apex; see notes/agent_reports/query.md section 7); the server units use a '
-                    'restated assumed frame whose implication from the proved contract is machine-checked (lemma_server_answer_frame)',
+        unverified=['handle_message / handle_message_with_context (server units, C03/C08); the precondition at_or_below(labels(qname), zone apex) of answer/answer_any is proved in handle_query (unit server_query_dispatch)',
                     'owner names and compressed name content of the RRs written: not exposed by the writer contracts for add_*_rrset (C12/C13)',
                     'equality of whole response sections (as multisets) with an independent end-to-end resolver: compositional only',
                     'the reverse direction "Err(ServFail) only for loop / ninth link / malformed data / writer error" is not stated for CNAME chains',
